@@ -78,7 +78,7 @@ CLAIMED = {
   'Trusted: Lean kernel, standard axioms; the table regenerated from wn/constants.py by the translator.'),
  'C19': (
   'Lean 4 proof that _add_ili only writes ilis/ili_statuses, gives every listed ILI the status and definition of its last row, creates unknown ones, keeps ids unique and is idempotent + correspondence/oracle on real index files',
-  'Props/C19.lean (any database, any row list incl. duplicates): C19_frame (22 other tables equal), existing ILI rows keep rowid/id so synset links resolve the same (C19_links_resolve_same), C19_listed_updated / C19_unlisted_untouched / C19_listed_present, C19_ids_unique, C19_idempotent (loading the same file twice = once). Independence of the load order relative to lexicons is decided by correspondence and oracle (both orders executed on the real library). Real add() of .tsv index files (two files, presupposed/active/deprecated statuses, quoted definitions, short rows) is compared with the model and a document oracle.',
+  'Props/C19.lean (any database, any row list incl. duplicates): C19_frame (22 other tables equal), existing ILI rows keep rowid/id so synset links resolve the same (C19_links_resolve_same), C19_listed_updated / C19_unlisted_untouched / C19_listed_present, C19_ids_unique, C19_idempotent (loading the same file twice = once). C19_order_independent: loading the index before or after the presupposed-ILI pass of a lexicon gives every listed ILI the same status and definition (those of its last row); the real library is additionally run in both orders. Real add() of .tsv index files (two files, presupposed/active/deprecated statuses, quoted definitions, short rows) is compared with the model and a document oracle.',
   'Trusted: Lean kernel, standard axioms; TSV parsing (_ili.load) is modelled and validated by correspondence.'),
  'C20': (
   'Lean 4 proof that is_lmf agrees with the header check, unknown elements / repeated single-valued children / missing ids are rejected at any depth and rejection is whole-document; element tables proved equal to the tables regenerated from lmf.py; correspondence on mutated files',
